@@ -3,19 +3,22 @@
 import sys, subprocess, tempfile, os
 drv, cf, tf, k = sys.argv[1], sys.argv[2], sys.argv[3], int(sys.argv[4])
 c=list(map(int,open(cf).read().splitlines()[k].split())); t=list(map(int,open(tf).read().splitlines()[k].split()))
-sizes={0:3,1:3,2:2,3:3,4:3,5:3,6:5,7:2,8:3,9:3,10:1}
-evb=[3]; i=3
-for _ in range(c[2]):
-    i+= (2+2*c[i+1]) if c[i]==11 else sizes[c[i]]
+sizes={1:4,2:3,3:4,4:4,5:4,6:6,7:3,8:3,9:3,10:1}
+evb=[4]; i=4
+for _ in range(c[3]):
+    if c[i] in (0,12):
+        j=i+2; j+=1+c[j]; j+=1+c[j]; i=j
+    elif c[i] in (11,13): i+=2+2*c[i+1]
+    else: i+=sizes[c[i]]
     evb.append(i)
 tb=[1]; i=1
 def lst(w):
     global i
     n=t[i]; i+=1+n*w
 while i<len(t):
-    lst(2); lst(1); lst(3); i+=2; lst(4); lst(1); lst(2); lst(1); lst(1); tb.append(i)
+    lst(3); lst(1); lst(3); i+=2; lst(4); lst(3); lst(2); lst(1); lst(1); lst(2); tb.append(i)
 for n in range(1,len(tb)):
-    cc=c[:2]+[n]+c[3:evb[n]]; tt=t[:tb[n]]
+    cc=c[:3]+[n]+c[4:evb[n]]; tt=t[:tb[n]]
     with tempfile.TemporaryDirectory() as d:
         open(d+'/c','w').write(' '.join(map(str,cc))+'\n'); open(d+'/t','w').write(' '.join(map(str,tt))+'\n')
         r=subprocess.run([drv,'ok',d+'/c',d+'/t'],capture_output=True,text=True).stdout.strip()
